@@ -79,6 +79,10 @@ mod routing_table;
 mod store;
 mod types;
 
+#[cfg(litep2p_verif)]
+#[path = "../../../verif/c17.rs"]
+pub(crate) mod verif_c17;
+
 mod schema {
     pub(super) mod kademlia {
         include!(concat!(env!("OUT_DIR"), "/kademlia.rs"));
